@@ -8,7 +8,10 @@ import c07
 
 IMPORTS = "Base GenThresholds Codebase Json Writer"
 NASTY = ['q"uote', "back\\slash", "tab\there", "new\nline", "nul\x00", "é", "日本", "emoji😀", " sep", "a/b", "{}[],:", "", "'", "\x7f\x1f",
-         "\\u0041", "</script>", "None", "null"]
+         "\\u0041", "</script>", "None", "null",
+         # not in Unicode normal form C / characters that line-splitting and normalising helpers treat specially
+         "cafe\u0301", "\u212b", "\u2126", "\ufb01", "\u1100\u1161", "x\u2028y", "x\u2029y", "x\x85y", "\x0b\x0c\x1c\x1d\x1e", "\ud7ff\ue000",
+         "\U0001f600\u200d", "\ufeff"]
 
 
 def gen_str(rng, base):
